@@ -347,6 +347,12 @@ func emObserve(a *asm.Emitter) emObs {
 
 func emObsEq(a, b emObs) bool { return reflect.DeepEqual(a, b) }
 
+// the observables C16 lists (GetBase is not among them: a difference must show in listing or Finalize)
+func emObsEqListed(a, b emObs) bool {
+	a.Base, b.Base = 0, 0
+	return reflect.DeepEqual(a, b)
+}
+
 // listing records
 type emRL struct {
 	K     string `json:"k"` // ins1 ins2 ins2l ins3 ins3l ins4 base db comment label
@@ -1384,7 +1390,7 @@ func emC16(sc emScript, k int) *emFail {
 	}
 	d, s := emFull(direct), emFull(orig)
 	switch {
-	case !emObsEq(d.Obs, s.Obs):
+	case !emObsEqListed(d.Obs, s.Obs):
 		return fail("C16.equiv", "state", fmt.Sprintf("split %d: direct %+v, clone+append %+v", k, d.Obs, s.Obs))
 	case d.Text != s.Text:
 		return fail("C16.equiv", "text-listing", fmt.Sprintf("split %d: text listing direct %q, clone+append %q", k, d.Text, s.Text))
